@@ -2,6 +2,9 @@ package main
 
 import (
 	"fmt"
+	"runtime"
+	"sort"
+	"sync"
 	"strings"
 	"time"
 
@@ -149,6 +152,21 @@ func emitC11Doc(out *Out, r *Rng) {
 	doc := g.Render(root, p)
 	ctxBytes := g.ContextDoc()
 	loader := &mapLoader{docs: map[string][]byte{g.sch.URL: ctxBytes}}
+	if r.Chance(30) {
+		// an earlier attempt with one ill-formed value: it fails; the corrected document merklized next is what is judged
+		if bad := g.RenderBroken(root, p); bad != nil {
+			// (on every processor: what a failed attempt leaves behind may be kept per processor)
+			var wg sync.WaitGroup
+			for k := 0; k < 2*runtime.GOMAXPROCS(0); k++ {
+				wg.Add(1)
+				go func() {
+					defer wg.Done()
+					_ = runMerklize(bad, hPoseidon(), loader, true)
+				}()
+			}
+			wg.Wait()
+		}
+	}
 	run := runMerklize(doc, hPoseidon(), loader, true)
 	if run.Err != nil {
 		out.Emit(Case{Op: "none", In: J{"doc": string(doc)}, Impl: errJ(run.Err), Prop: &PropRes{OK: false, Why: "generated document does not merklize: " + run.Err.Error()}, NT: true})
@@ -161,6 +179,33 @@ func emitC11Doc(out *Out, r *Rng) {
 	for _, e := range mz.VerifEntries() {
 		keys[fmt.Sprintf("%#v", e.VerifKeyParts())] = e
 		erased[strings.Join(erase(e.VerifKeyParts()), " ")] = true
+	}
+	// the stored keys themselves: the positions under one parent path and property are exactly 0..n-1 (whatever order the
+	// members got them in - that order is finding F1b; a gap or an offset is not)
+	{
+		groups := map[string]map[int]bool{}
+		for _, e := range mz.VerifEntries() {
+			parts := e.VerifKeyParts()
+			for i, part := range parts {
+				if n, ok := part.(int); ok {
+					k := fmt.Sprintf("%#v", parts[:i])
+					if groups[k] == nil {
+						groups[k] = map[int]bool{}
+					}
+					groups[k][n] = true
+				}
+			}
+		}
+		var w []string
+		for k, set := range groups {
+			for i := 0; i < len(set); i++ {
+				if !set[i] && len(w) < 3 {
+					w = append(w, fmt.Sprintf("the members stored under %s carry the positions %v: not 0..%d", k, keysOfIntSet(set), len(set)-1))
+					break
+				}
+			}
+		}
+		out.Emit(Case{Op: "none", In: J{"doc": string(doc)}, Impl: J{"groups": len(groups)}, Prop: propOf(w), Tags: []string{"stored-positions"}, NT: len(groups) > 0})
 	}
 	sj := schemaJ(g)
 	dj := nodeModelJ(root)
@@ -412,3 +457,12 @@ func genC11(out *Out, r *Rng, tier string, n int, shard int) {
 }
 
 func init() { gens["C11"] = genC11 }
+
+func keysOfIntSet(m map[int]bool) []int {
+	var ks []int
+	for k := range m {
+		ks = append(ks, k)
+	}
+	sort.Ints(ks)
+	return ks
+}
